@@ -161,7 +161,7 @@ PROPS = {
     ),
     "C14": dict(
         gens=[tlc("c14"), rand("identity", 500, "quick"), rand("identity", 30000, "thorough")],
-        tv_props=["C14"],
+        tv_props=["C14", "DRIFT"],
         must_fire=["C14.eq_symmetric", "C14.eq_stable", "C14.same_construction_equal", "C14.typed_agrees_with_dyn",
                    "C14.equal_implies_same_hash", "C14.equal_implies_same_answers", "C14.observer_repeatable"],
         rule="pairs built by the same constructor calls and pairs one edit apart (Gen.tla Edits), with observer calls on one operand "
@@ -203,7 +203,9 @@ PROPS = {
     ),
     "C20": dict(
         gens=[tlc("c20"), rand("edit_pairs", 500, "quick"), rand("edit_pairs", 30000, "thorough")],
-        tv_props=["C20"],
+        tv_props=["C20", "DRIFT"],
+        mc=[dict(module="MC_HashM.tla", cfg="MC_HashM", expect="Separates"),
+            dict(module="MC_HashM.tla", cfg="MC_HashM_delimited")],
         must_fire=["C20.different_observables_different_hash", "C20.hash_reproducible"],
         rule="every single edit of every listed kind at every node of the base trees, and all pairs of base trees; a pair counts only "
              "when source/buffer/map really differ; hashes recomputed in a second thread and a second process; non-trivial = the pair "
